@@ -260,6 +260,13 @@ def run(run):
     fixed_spec('FixedPointInteger', T.FixedPointInteger, 4, 5)
     fixed_spec('FixedPoint(Short,12)', T.FixedPoint(T.Short, 12), 2, 12)
     fixed_spec('FixedPoint(Byte,5)', T.FixedPoint(T.Byte), 1, 5)
+    # every number of fractional bits a user may ask for, 0 included (an
+    # explicit 0 is not "use the default")
+    for carrier, cb in ((T.Byte, 1), (T.Short, 2), (T.Integer, 4)):
+        for n in (0, 1, 4, 7):
+            if n < cb * 8 - 1:
+                fixed_spec('FixedPoint(%s,%d)' % (carrier.__name__, n),
+                           T.FixedPoint(carrier, n), cb, n)
 
     add('String', T.String, strings(rng, nrand // 4, thorough), rw.string)
     add('VarIntPrefixedByteArray', T.VarIntPrefixedByteArray,
